@@ -266,6 +266,7 @@ func lineModel(e *Env, r *Report, prop string) {
 				jp := filepath.Join(e.Scratch, fmt.Sprintf("jl-%s-%d.json", prop, i))
 				_ = os.WriteFile(jp, append(jl, '\n'), 0o644)
 				jr, err := logs.GetJournalctlLogs(jp, "", true)
+				noteLeakedFd()
 				_ = os.Remove(jp)
 				if err != nil {
 					jr = strings.NewReader("")
